@@ -16,6 +16,7 @@ JOBS = [
     ("py2v_iter.py", "Gen/IterBook.v"),
     ("py2v_diag.py", "Gen/DiagGen.v"),
     ("py2v_design.py", "Gen/DesignGen.v"),
+    ("py2v_readbatch.py", "Gen/ReadBatchGen.v"),
 ]
 if __name__ == "__main__":
     repo, coq = sys.argv[1], sys.argv[2]
